@@ -113,13 +113,14 @@ def c04_one(ctx, r, mode):
                 ctx.violation("the first run did not stop cleanly: %s" % {x: y for x, y in rep1.items() if x in ("died", "panic", "stopPanic", "stopHung")}, rp)
                 return
         # what is on disk now
-        insp, _ = run_one({"inspectOnly": True, "job": "j"}, keep=d, timeout=60)
+        base = "http://127.0.0.2:%d" % port
+        insp, _ = run_one({"inspectOnly": True, "job": "j", "seenQuery": [base + sp for sp in seeds if not sp.startswith("raw:")]}, keep=d, timeout=60)
+        seen_store = insp.get("seenStore") or {}
         rows = insp.get("lqRows") or []
         if any(x.startswith("err") for x in rows):
             raise RuntimeError("e2e restart: the queue file is unreadable after the first run: %s" % rows)
         left = {x.split("|")[0] for x in rows}
         recs = insp.get("warcRecords") or []
-        base = "http://127.0.0.2:%d" % port
         on_disk = {rc["uri"] for rc in recs if rc["type"] in ("response", "revisit") and rc["complete"] and not rc.get("err")}
         # complete records only, except possibly the tail of a file after a kill
         bad = [rc for rc in recs if (not rc["complete"] or rc.get("err"))]
@@ -158,8 +159,9 @@ def c04_one(ctx, r, mode):
         for i, sp in enumerate(seeds):
             if "s%d" % i in left and not sp.startswith("raw:") and sp not in again:
                 msg = "s%d (%s) was unfinished when the first run ended (%s) but was not crawled again after the restart" % (i, sp, mode)
-                if sp in first_run and not cfg.get("disableSeencheck"):
-                    # the first run had already requested the seed's own URL, i.e. recorded it in the local seen-store
+                if base + sp in seen_store and not cfg.get("disableSeencheck"):
+                    # the first run had already recorded the seed's own URL in the (persisted) local seen-store: it did so when it
+                    # preprocessed the seed, whether or not the fetch then happened
                     ctx.known_finding("D20", msg, rp)
                 else:
                     ctx.violation(msg, rp); return
